@@ -13,7 +13,7 @@ PLAN = {"quick": {"runs": 10000, "wall_s": 90}, "thorough": {"runs": 250000, "wa
 RULE = ("Each run: a random chain of 0-4 with_* calls (map, flat_map, retry, poll, throttle, timeout, cancel_on_shutdown) with drawn "
         "explicit / inherited names, applied (A) to the executor followed by submit(fn, *args), (B) partly before and partly after "
         "bind(fn), (C) for future-returning callables flat_bind(fn) against bind(fn).with_flat_map(identity); callables are plain "
-        "functions, functools.partial objects and callable objects with scripted failures. Both sides run in the same simulated run "
+        "functions, functools.partial objects, callable objects and bound callables of another executor, with scripted failures. Both sides run in the same simulated run "
         "over fresh bases; outcomes, invocation counts and the names of all threads created are compared. Non-trivial = a pre-emption "
         "and a chain that creates at least one thread or retries at least once.")
 ASSUMPTIONS = ["mostly a programs x inputs property: the simulator contributes exact, repeatable comparison for chains with worker threads and timers, and the thread-name observation point"]
@@ -31,9 +31,11 @@ def gen(rng, tier):
     for _ in range(n):
         chain.append({"t": rng.choice(OPS), "name": rng.choice([None, None, None, "x%d" % rng.randrange(3)])})
     spec = {"chain": chain, "split": rng.randrange(n + 1), "base": rng.choice(["sync", "pool"]),
-            "base_name": rng.choice([None, "nm", "nm"]), "fn_kind": rng.choice(["function", "partial", "object"]),
+            "base_name": rng.choice([None, "nm", "nm"]), "fn_kind": rng.choice(["function", "partial", "object", "function", "partial", "object", "bound"]),
             "flat": rng.random() < 0.3, "fails": rng.choice([0, 0, 1, 2]), "args": [rng.randrange(10) for _ in range(rng.choice([0, 1, 2]))],
-            "settle": 3.0, "fork": rng.random() < 0.4}
+            "settle": 3.0, "fork": rng.random() < 0.4,
+            # the base executor is shut down before the call: both forms must refuse (or accept) alike
+            "shutdown_first": rng.random() < 0.12}
     spec["sim"] = runner.draw_sim_cfg(rng, est=500)
     spec["sim"]["horizon_s"] = 5000
     return spec
@@ -68,7 +70,13 @@ def run(spec, env):
             if calls[0] <= spec["fails"]:
                 raise env.exc(("w", side, calls[0]), "ErrA")
             v = ("v",) + tuple(a)
+            if spec["fn_kind"] == "bound":
+                return v       # the future comes from the executor this callable is bound to
             return f_return(v) if spec["flat"] else v
+        if spec["fn_kind"] == "bound":
+            # the callable handed to bind() / submit() is itself a bound callable of another executor:
+            # calling it returns a future, like any other future-returning callable
+            return Executors.sync().bind(work), calls
         if spec["fn_kind"] == "partial":
             return functools.partial(lambda tag, *a: work(*a), "p"), calls
         if spec["fn_kind"] == "object":
@@ -106,6 +114,7 @@ def run(spec, env):
         mark = len(sim.threads)
         (fn, calls) = make_fn(side)
         ex = base()
+        the_base = ex
         bound0 = None
         try:
             if side == "A0":
@@ -114,12 +123,16 @@ def run(spec, env):
                     ex = apply(ex, L)
                 if spec["flat"]:
                     ex = ex.with_flat_map(lambda f: f)
+                if spec.get("shutdown_first"):
+                    the_base.shutdown(True)
                 f = ex.submit(fn, *spec["args"])
             elif side == "A":
                 for L in spec["chain"]:
                     ex = apply(ex, L)
                 if spec["flat"]:
                     ex = ex.with_flat_map(lambda f: f)
+                if spec.get("shutdown_first"):
+                    the_base.shutdown(True)
                 f = ex.submit(fn, *spec["args"])
             else:
                 for L in spec["chain"][:spec["split"]]:
@@ -136,12 +149,14 @@ def run(spec, env):
                     # derive a second, unrelated chain from the same intermediate callable:
                     # customising a bound callable must not alter the callable it started from
                     other = bound0.with_map(lambda x: ("fork", x))
+                if spec.get("shutdown_first"):
+                    the_base.shutdown(True)
                 f = bound(*spec["args"])
         except Exception as e:
             env.rec("side-raised", side, type(e).__name__, str(e)[:80])
             return
         try:
-            f.result(200.0)
+            f.result(200.0 if not spec.get("shutdown_first") else 5.0)
         except Exception:
             pass
         st = fut_state(f)
@@ -186,9 +201,21 @@ def check(spec, env):
         return json.dumps(x).replace('"A0"', '"S"').replace('"B0"', '"S"').replace('"A"', '"S"').replace('"B"', '"S"')
     raised = {e[4]: e for e in log if e[3] == "side-raised"}
     shape = "+".join(L["t"] for L in spec["chain"]) or "-"
-    for s, e in raised.items():
-        out.append({"oracle": "chain-raised", "sig": "chain-construction-raised|%s|%s" % (s, e[5]),
-                    "msg": "side %s: building / calling the chain raised %s: %s; chain %s split %d" % (s, e[5], e[6], shape, spec["split"])})
+    if spec.get("shutdown_first"):
+        # over a base that has been shut down both forms must behave alike: both raise the same
+        # error from the call itself, or both return a future with the same outcome
+        ra, rb = raised.get("A"), raised.get("B")
+        if (ra is None) != (rb is None) or (ra is not None and ra[5] != rb[5]):
+            out.append({"oracle": "equivalence", "sig": "bind-differs-after-shutdown|%s" % ("executor-raised" if ra is not None else "bound-raised"),
+                        "msg": "base executor shut down before the call: executor.submit() %s, the bound callable %s; chain %s split %d"
+                               % ("raised %s" % ra[5] if ra is not None else "returned a future (%r)" % (sides.get("A", [None] * 6)[5],),
+                                  "raised %s" % rb[5] if rb is not None else "returned a future (%r)" % (sides.get("B", [None] * 6)[5],), shape, spec["split"])})
+        if ra is not None or rb is not None:
+            return out
+    else:
+        for s, e in raised.items():
+            out.append({"oracle": "chain-raised", "sig": "chain-construction-raised|%s|%s" % (s, e[5]),
+                        "msg": "side %s: building / calling the chain raised %s: %s; chain %s split %d" % (s, e[5], e[6], shape, spec["split"])})
     if "A" not in sides or "B" not in sides:
         return out
     a, b = sides["A"], sides["B"]
@@ -221,7 +248,7 @@ def check(spec, env):
             out.append({"oracle": "equivalence", "sig": "intermediate-bound-callable-invocations",
                         "msg": "intermediate bound callable invoked the function %d times, its executor chain %d times" % (b0[6], a0[6])})
     # names
-    want = expected_names(spec)
+    want = expected_names(spec) if not spec.get("shutdown_first") else []   # a shut-down base creates no thread to look at
     for (s, e) in (("A", a), ("B", b)):
         names = e[7]
         for (prefix, nm) in want:
